@@ -33,6 +33,10 @@ TREE_CATALOGUE = [
     ("R13", "enum value name duplicated, the first one with ordinal 0", {"net": '<enum name="E2" type="char"><value name="A">0</value><value name="B">1</value><value name="A">2</value></enum><struct name="U"><field name="e" type="E2"/></struct>'}),
     ("R13", "enum ordinal 0 duplicated", {"pub": '<enum name="E2" type="char"><value name="A">0</value><value name="B">0</value></enum><struct name="U"><field name="e" type="E2"/></struct>'}),
     ("R13", "enum value name duplicated with equal ordinals", {"net": '<enum name="E2" type="char"><value name="A">0</value><value name="A">0</value></enum><struct name="U"><field name="e" type="E2"/></struct>'}),
+    ("R15", "switch on an array of enums", {"net": '<struct name="U"><array name="cs" type="Color" length="2"/><switch field="cs"><case value="Red"><field name="x" type="char"/></case></switch></struct>'}),
+    ("R15", "switch on an array of integers, in a packet", {"net/client": '<packet family="Talk" action="Request"><array name="cs" type="char" length="2"/><switch field="cs"><case value="1"><field name="x" type="char"/></case></switch></packet>'}),
+    ("R11", "hardcoded string longer than its declared length 0", {"net": '<struct name="U"><field type="string" length="0">x</field><field name="a" type="char"/></struct>'}),
+    ("R11", "named hardcoded string longer than length 0, inside a chunked section", {"pub": '<struct name="U"><chunked><field name="t" type="string" length="0" padded="true">ab</field></chunked></struct>'}),
     ("R14", "enum underlying type is a string", {"net": '<enum name="E3" type="string"><value name="A">1</value></enum><struct name="U"><field name="e" type="E3"/></struct>'}),
     ("R14", "enum underlying type is itself", {"net": '<enum name="E3" type="E3"><value name="A">1</value></enum><struct name="U"><field name="e" type="E3"/></struct>'}),
     ("R14", "enum underlying type unknown", {"pub": '<enum name="E3" type="word"><value name="A">1</value></enum><struct name="U"><field name="e" type="E3"/></struct>'}),
